@@ -353,7 +353,8 @@ class C11(Prop):
         return ops
 
     def gen_case(self, rng, cid):
-        npop = rng.range(1, 6)
+        # now and then a population that crosses the HEART_BEAT_CHUNK boundary (second allocation) inside a random history
+        npop = rng.range(1, 6) if not rng.chance(1, 25) else rng.range(30, 36)
         ids = {"all": [0, 1], "next": 1}
         body = []
         if rng.chance(1, 5):
@@ -391,7 +392,7 @@ class C11(Prop):
                 body.append("script o%d md %s" % (i, ";".join(hops)))
         # heart_beat scripts (self is much more likely than a stranger)
         pop = list(ids["all"])
-        for _ in range(rng.range(0, 2 * npop)):
+        for _ in range(rng.range(0, 2 * min(npop, 8))):
             o = rng.choice(pop)
             key = "hb:*" if rng.chance(1, 5) else "hb:%d" % rng.weighted([(0, 6), (1, 4), (2, 2), (3, 1)])
             sub = {"all": ids["all"], "next": ids["next"]}
